@@ -568,6 +568,8 @@ class Surrogates(Cached):
         :return: the Pearson correlation test matrix.
         """
         (N, n_time) = original_data.shape
+        if surrogates.shape != (N, n_time):
+            raise ValueError("original_data and surrogates differ in shape")
         return _test_pearson_correlation(to_cy(original_data, DFIELD),
                                          to_cy(surrogates, DFIELD),
                                          N, n_time)
@@ -594,6 +596,8 @@ class Surrogates(Cached):
         :return: the mutual information test matrix.
         """
         (N, n_time) = original_data.shape
+        if surrogates.shape != (N, n_time):
+            raise ValueError("original_data and surrogates differ in shape")
         #  Calculate symbolic time series and histograms
         #  Calculate 2D histograms and mutual information
         #  mi[i,j] gives the mutual information between the ith original_data
